@@ -35,6 +35,7 @@ import (
 	"context"
 	"encoding/json"
 	"fmt"
+	"io"
 	"os"
 	"os/exec"
 	"regexp"
@@ -246,7 +247,7 @@ type vfC04BatchRes struct {
 }
 
 func vfC04KVsOf(name string) []vfc20.KV {
-	for _, f := range append(append(vfC04Files(), vfC04OomBait()), vfC04StreamFile()) {
+	for _, f := range append(append(vfC04Files(), vfC04OomBait()), vfC04StreamFile(), vfC04Stream2File()) {
 		if f.Name == name {
 			return f.KVs
 		}
@@ -389,6 +390,39 @@ func vfC04StreamFile() vfC04File {
 		vfc20.SmallStream("st"),
 		{DB: 0, Key: []byte("z"), Type: 1, Items: [][]byte{[]byte("p"), []byte("q")}},
 	}}
+}
+
+// vfC04Stream2File: a stream whose master field name has five bytes (the four
+// bytes behind the num-fields element are then ordinary text: read as a 32-bit
+// integer they are a count of 10^9) next to an LZF-compressed string.
+func vfC04Stream2File() vfC04File {
+	return vfC04File{Name: "stream2", KVs: []vfc20.KV{
+		vfc20.LZFString("lz", 'a', 40),
+		vfc20.SmallStreamF("st", "field"),
+		{DB: 0, Key: []byte("z"), Type: 0, Str: []byte("1")},
+	}}
+}
+
+// vfC04SetValues: byte values that MAKE a length / count field large when they
+// are written over a small one — RDB lengths (0x80 32-bit, 0x81 64-bit, 0xC3
+// LZF, 0x7F 14-bit), listpack integers (0xF1..0xF4: 16/24/32/64-bit), listpack /
+// ziplist string lengths (0xF0 32-bit, 0xEF 12-bit, 0xBF, 0xFE). XOR masks reach
+// them only from particular original bytes.
+var vfC04SetValues = []int{0xF3, 0xF4, 0x81, 0xF0, 0x80, 0xF2, 0xF1, 0xC3, 0xEF, 0xBF, 0x7F, 0xFE, 0xC2, 0x40}
+
+// vfC04SeedPick: k values out of pool chosen by the seed and a salt (so that
+// different VERIF_SEEDs explore different alterations in the quick tier).
+func vfC04SeedPick(pool []int, k int, salt int64) []int {
+	r := vfutil.NewRand(vfutil.Seed()*1000003 + uint64(salt))
+	p := append([]int(nil), pool...)
+	for i := len(p) - 1; i > 0; i-- {
+		j := r.Intn(i + 1)
+		p[i], p[j] = p[j], p[i]
+	}
+	if k > len(p) {
+		k = len(p)
+	}
+	return p[:k]
 }
 
 // ---------------------------------------------------------------- the worker child
@@ -577,6 +611,9 @@ type vfC04Opts struct {
 	NoCancel  bool   `json:",omitempty"` // HoldAt: release without cancelling
 	Cluster   bool   `json:",omitempty"` // bidirectional replay onto a CLUSTER target (global lane goroutine)
 	Lua       string `json:",omitempty"` // the snapshot carries this script as AUX "lua": SCRIPT LOAD is part of the replay
+	// added after the second review
+	TailLate int `json:",omitempty"` // the last TailLate bytes (footer) arrive only after parser and workers have quiesced on the rest: a
+	// snapshot of realistic length, whose values are decoded and replayed long before the checksum is reached
 }
 
 type vfC04Res struct {
@@ -678,9 +715,31 @@ func vfC04Send(t *testing.T, kvs []vfc20.KV, data []byte, size int64, o vfC04Opt
 			cancel()
 		}
 		done := make(chan error, 1)
+		var src io.Reader = bytes.NewReader(data)
+		var tailGo chan struct{}
+		var tailPipe *io.PipeReader
+		if o.TailLate > 0 && o.TailLate < len(data) && o.HoldAt < 0 {
+			pr, pw := io.Pipe()
+			tailGo, tailPipe = make(chan struct{}), pr
+			head, tail := data[:len(data)-o.TailLate], data[len(data)-o.TailLate:]
+			go func() {
+				if _, err := pw.Write(head); err != nil {
+					return
+				}
+				<-tailGo
+				pw.Write(tail)
+				pw.Close()
+			}()
+			src = pr
+		}
 		go func() {
-			done <- ro.SendRdb(ctx, &vfC04Reader{r: bufio.NewReaderSize(bytes.NewReader(data), 4096), size: size})
+			done <- ro.SendRdb(ctx, &vfC04Reader{r: bufio.NewReaderSize(src, 4096), size: size})
 		}()
+		if tailGo != nil {
+			synctest.Wait() // everything before the footer has been parsed, distributed and replayed
+			close(tailGo)
+			defer tailPipe.CloseWithError(io.ErrClosedPipe)
+		}
 		if o.HoldAt >= 0 {
 			synctest.Wait()
 			select {
@@ -951,6 +1010,15 @@ func TestVerifC04(t *testing.T) {
 		}
 	}()
 	mark := func(c string) { cur.Store(c); tick.Add(1) }
+	t0 := time.Now()
+	phase := func(name string) {
+		if os.Getenv("VERIF_C04_TIMING") != "" {
+			if f, err := os.OpenFile(os.Getenv("VERIF_C04_TIMING"), os.O_APPEND|os.O_CREATE|os.O_WRONLY, 0o644); err == nil {
+				fmt.Fprintf(f, "C04 phase %-6s at %6.1fs\n", name, time.Since(t0).Seconds())
+				f.Close()
+			}
+		}
+	}
 
 	files := vfC04Files()
 	var corpusChild []vfC04BatchCase
@@ -1069,6 +1137,7 @@ func TestVerifC04(t *testing.T) {
 		}
 	}
 
+	phase("1")
 	// ------------------------------------------------ 1. real parser vs frame model: truncations and every XOR mask
 	sweepFiles := append([]vfC04File{}, files...)
 	sweepFiles = append(sweepFiles, vfC04OomBait())
@@ -1135,6 +1204,7 @@ func TestVerifC04(t *testing.T) {
 		}
 	}
 
+	phase("2")
 	// ------------------------------------------------ 2. the real pipeline on damaged input
 	pick := func(i int) vfC04Opts {
 		o := vfC04DefaultOpts()
@@ -1178,6 +1248,7 @@ func TestVerifC04(t *testing.T) {
 		}
 	}
 
+	phase("2a")
 	// ------------------------------------------------ 2a. through the real disk-cache reader (store.RdbReader.pump)
 	for fi, f := range files {
 		data := f.bytes()
@@ -1206,9 +1277,10 @@ func TestVerifC04(t *testing.T) {
 		}
 	}
 
-	// ------------------------------------------------ 2b. a stream value: decoders run in the workers, supervised child
-	{
-		f := vfC04StreamFile()
+	// ------------------------------------------------ 2b. stream values and an LZF string: decoders run in the workers,
+	// supervised child. Alterations: XOR masks AND writing length/count-making values over every byte (vfC04SetValues).
+	phase("2b")
+	for fi, f := range []vfC04File{vfC04StreamFile(), vfC04Stream2File()} {
 		data := f.bytes()
 		s.Add("sweep_file_bytes", len(data))
 		var cases []vfC04BatchCase
@@ -1217,25 +1289,40 @@ func TestVerifC04(t *testing.T) {
 			o.Parallel = 1 + i%3
 			o.Bisync = i%4 == 3
 			o.Restore = false // expansion: the listpack decoder runs
+			o.TailLate = 9    // ... before the footer arrives
 			cases = append(cases, vfC04BatchCase{File: f.Name, Data: vfutil.Hex(g), Size: int64(len(data)), Opts: o})
 		}
 		oi := 0
 		oc := vfC04DefaultOpts()
 		cases = append(cases, vfC04BatchCase{File: f.Name, Data: vfutil.Hex(data), Size: int64(len(data)), Opts: oc}) // intact
-		for k := 0; k < len(data); k += vfutil.Scale(3, 1) {
+		for k := int(vfutil.Seed() % 3); k < len(data); k += vfutil.Scale(3, 1) {
 			add(data[:k], oi)
 			oi++
 		}
-		masks := []int{0x01, 0x80, 0xFF, 0xF5}
+		// quick: two fixed masks + one mask and three set values drawn from the seed per file; the 32-/64-bit makers always
+		masks := append([]int{0x01, 0xF5}, vfC04SeedPick([]int{0x02, 0x04, 0x08, 0x10, 0x20, 0x40, 0x80, 0xFF, 0xF7, 0xFA, 0x7F}, 1, int64(20+fi))...)
+		sets := append([]int{0xF3, 0xF4, 0x81}, vfC04SeedPick(vfC04SetValues[3:], 2, int64(30+fi))...)
 		if vfutil.Thorough() {
 			masks = []int{0x01, 0x02, 0x04, 0x08, 0x10, 0x20, 0x40, 0x80, 0xFF, 0xF5, 0xF7, 0xFA, 0x7F}
+			sets = vfC04SetValues
 		}
 		for pos := 9; pos < len(data); pos++ {
-			for _, m := range masks {
+			seen := map[byte]bool{data[pos]: true}
+			try := func(v byte) {
+				if seen[v] {
+					return
+				}
+				seen[v] = true
 				g := append([]byte(nil), data...)
-				g[pos] ^= byte(m)
+				g[pos] = v
 				add(g, oi)
 				oi++
+			}
+			for _, m := range masks {
+				try(data[pos] ^ byte(m))
+			}
+			for _, v := range sets {
+				try(byte(v))
 			}
 		}
 		mark("stream batch")
@@ -1271,6 +1358,7 @@ func TestVerifC04(t *testing.T) {
 		}
 	}
 
+	phase("2c")
 	// ------------------------------------------------ 2c. Redis-produced snapshots of the repo's own tests: ziplist / listpack /
 	// intset / quicklist containers, LZF strings, functions, streams with groups. Expansion path (the value decoders run in
 	// the replay workers, before the checksum is reached), supervised child. The dataset is not known to the monitor:
@@ -1286,6 +1374,7 @@ func TestVerifC04(t *testing.T) {
 			o.Parallel = 1 + oi%3
 			o.Bisync = oi%5 == 4
 			o.Restore = false
+			o.TailLate = 9
 			oi++
 			cases = append(cases, vfC04BatchCase{File: "foreign", Data: vfutil.Hex(g), Size: int64(size), Opts: o})
 			damaged = append(damaged, dmg)
@@ -1333,6 +1422,7 @@ func TestVerifC04(t *testing.T) {
 		}
 	}
 
+	phase("3")
 	// ------------------------------------------------ 3. faults and cancellation at every point, all worker counts
 	reps := vfutil.Scale(2, 6)
 	luaFile := vfC04File{Name: "luaaux", Opts: vfc20.Opts{Aux: true, Lua: []byte("return 1")}, KVs: []vfc20.KV{
@@ -1462,6 +1552,7 @@ func TestVerifC04(t *testing.T) {
 		}
 	}
 
+	phase("4")
 	// ------------------------------------------------ 4. thorough: many generated files, random positions
 	if vfutil.Thorough() {
 		for i := 0; i < 200; i++ {
